@@ -16,6 +16,10 @@
        nothing is queued.
    What lazy_act does with a `Save x` met inside a deferred-mode body does not depend on
    `atomic x`: it is deferred either way; `atomic` only decides how it is saved when its turn comes.
+   A write whose bytes name a memo entry that is still queued (dill's late fetch of a function's
+   globals dict; `_LazyGet` in the code since D28) is an ordinary `Write` of the action list: it is
+   queued behind the saves like every other write and its bytes are those the recursive pickler
+   writes at that point, because the memo orders coincide (`PicklerProofs.nr_dump_equals_rec_dump`).
    Model-side file: definitions only. *)
 From EG Require Import Base.
 
